@@ -122,7 +122,12 @@ let snap (c : t) : string =
                  l)
       in
       let met = if c.cfg.c_metrics then str_metrics st.s_mets else "off" in
-      let hist = if c.cfg.c_metrics then Printf.sprintf "0,0,%s,0,0" (string_of_z st.s_hist_min) else "off" in
+      let hist =
+        if c.cfg.c_metrics then
+          let h = st.s_hist in
+          Printf.sprintf "%s,%s,%s,%s,%s" (string_of_z h.h_count) (string_of_z h.h_sum) (string_of_z h.h_min)
+            (string_of_z h.h_max) (String.concat "/" (List.map string_of_z h.h_buckets))
+        else "off" in
       Printf.sprintf "now=%s closed=%d polclosed=%d buf=%d pq=%d ring=%s store=%s em=%s %s met=%s hist=%s %s"
         (string_of_n st.s_now)
         (if st.s_closed then 1 else 0)
